@@ -93,6 +93,9 @@ func ExecWriter(spec *WriterSpec, sink *Sink) *WriteResult {
 	nWrite := 0
 	for i := range spec.Ops {
 		op := &spec.Ops[i]
+		if sink.Yield != nil {
+			sink.Yield() // API-call boundary: a scheduling point between two calls of one instance
+		}
 		switch op.K {
 		case "add":
 			rec := op.Val(sh)
@@ -203,11 +206,16 @@ func ExecReader(shape string, rs io.ReadSeeker, limit int, setAPI func(string)) 
 	setAPI("Next")
 	_, pan, capped = guard(func() error {
 		res.Rows = r.Rows()
-		for r.Next() {
+		for {
+			setAPI("Next") // also an API-call boundary (scheduling point in C13)
+			if !r.Next() {
+				break
+			}
 			if len(res.Recs) >= limit {
 				res.Runaway = true
 				return nil
 			}
+			setAPI("Scan")
 			res.Recs = append(res.Recs, r.Scan())
 		}
 		if e := r.Error(); e != nil {
